@@ -111,6 +111,12 @@ def run(rep: vlib.Reporter, tier: str, seed: int) -> None:
             specs.append(daggen.gen_single_root(rng, multi_cfw=False))
         else:
             specs.append(daggen.gen_single_root(rng))
+    # systematic sweep of framework patterns over linked sources (cyclic framework patterns included)
+    sweep = daggen.framework_pattern_specs(4, star=False) + daggen.framework_pattern_specs(3, star=False)
+    if big:
+        sweep += daggen.framework_pattern_specs(4, star=True) + daggen.framework_pattern_specs(3, star=True) \
+            + daggen.framework_pattern_specs(4, star=False, jt="LEFT")
+    specs += sweep
     # in-process: three preparations
     outs = [[outcome(s) for _ in range(3)] for s in specs]
     # subprocesses: one per hash seed
@@ -124,7 +130,7 @@ def run(rep: vlib.Reporter, tier: str, seed: int) -> None:
                            env=env, stdout=subprocess.PIPE, stderr=subprocess.DEVNULL, text=True, timeout=1800)
         sub.append(json.loads(p.stdout))
     found = False
-    dist: Dict[str, Any] = {"specs": len(specs), "accepted": 0, "rejected": 0, "strict_fragment": 0, "with_links": 0,
+    dist: Dict[str, Any] = {"specs": len(specs), "framework_pattern_sweep": len(sweep), "accepted": 0, "rejected": 0, "strict_fragment": 0, "with_links": 0,
                             "nondeterministic": 0, "diff_classes": {}, "rejection_rules": {}, "run": {}, "hash_seeds": seeds}
     wf_terms, wf_idx = [], []
     for i, spec in enumerate(specs):
